@@ -6,6 +6,8 @@ RUNS = {"quick": 4500, "thorough": 120000}
 BUDGET_S = {"quick": 50, "thorough": 840}
 CHUNK = 50
 RULE = ("One evaluation = one seeded history that leaves mixed backend states (pending, running, failed, cancelled, finished, purged) followed by `gwf run [patterns]`; the submissions received by the simulated scheduler (job name, dependency ids parsed by the scheduler's own grammar) must equal M_plan: cone of the selection, exactly {failed, cancelled, shouldrun}, each once, after its same-run prerequisites, prerequisite ids = ids of exactly the incomplete direct dependencies (new id if resubmitted in this run, tracked id if in flight). Non-trivial = at least one run was checked; distinct = different digest.")
+RULE += (" Histories also contain interrupted or failing gwf invocations (hard kill at a seam event, Ctrl-C, ENOSPC, a failing or "
+         "unreachable scheduler command) - only the invocations after them are judged - and 1-2 % of the runs use 140-260 targets.")
 PROFILE = dict(
     nontrivial_probes=['plan_checks_with_backend_states'],
     backends=["slurm", "slurm", "sge", "lsf", "local"],
